@@ -1,5 +1,9 @@
-"""Shared by C07/C08: party mixes for spec/Mutex/Mutex.tla and the projection that
-harness/mutex_replay.cpp reproduces from the real cocls::mutex."""
+"""Shared by C07/C08 (and called by C03/C20): party mixes for spec/Mutex/Mutex.tla and MutexRounds.tla and the projection that
+harness/mutex_replay.cpp reproduces from the real cocls::mutex (one mutex, every interleaving of its atomic operations);
+several mutexes / holder slots / callback requests for spec/Mutex/MutexMulti.tla and harness/mutex_multi_replay.cpp
+(sequential, one public call per step).  Both replayers have reduced-observation builds (_build_levels): when a
+representation change of the mutex removes a private member the probes name, the projection degrades instead of the
+check breaking."""
 import os
 
 import vlib
@@ -44,8 +48,19 @@ def queue_of(st):
     return out
 
 
+# observation level of the mutex_replay build (set by build()): 0 everything, 1 without the owner-private FIFO, 2 public only
+OBS_LEVEL = 0
+OBS_DROP = {0: (), 1: ("queue",), 2: ("queue", "req", "chain")}
+
+
+def _observable(d):
+    for k in OBS_DROP[OBS_LEVEL]:
+        d.pop(k, None)
+    return d
+
+
 def proj(st, pk):
-    return {
+    return _observable({
         "req": st["req"],
         "chain": chain_of(st),
         "queue": queue_of(st),
@@ -58,7 +73,7 @@ def proj(st, pk):
         # thread starts, i.e. before the first step); lock/contend/hand-over allocate nothing
         "frames": sum(1 for p, k in pk.items() if k == "co"),
         "allocs": 0,
-    }
+    })
 
 
 def mix_constants(mix, inspect_next=False):
@@ -98,8 +113,11 @@ def run_mix(ctx, rp, mix, tag, max_paths=None, workers=4):
 
 
 def build(ctx):
-    return vlib.compile_harness(os.path.join(vlib.VERIF, "harness/mutex_replay.cpp"), "mutex_replay",
-                                sanitize=not ctx.quick)
+    """A representation change of the mutex must degrade the projection, not break the check: when the full harness does not
+    compile, it is rebuilt without the probes of the private members it may have lost (OBS_LEVEL)."""
+    global OBS_LEVEL
+    rp, OBS_LEVEL = _build_levels(ctx, "harness/mutex_replay.cpp", "mutex_replay")
+    return rp
 
 
 def run_mixes(ctx, rp, jobs, max_paths=None, par=None):
@@ -141,7 +159,7 @@ def rounds_defs(cfg):
 
 def proj_rounds(st, cfg):
     pk = cfg["P"]
-    return {
+    return _observable({
         "req": st["req"],
         "chain": chain_of(st),
         "queue": queue_of(st),
@@ -153,7 +171,7 @@ def proj_rounds(st, cfg):
         "slot": st["slot"] if st["slot"] != [] else {},
         "frames": sum(1 for p, k in pk.items() if k == "co"),
         "allocs": 0,
-    }
+    })
 
 
 def header_rounds(cfg, k):
@@ -293,3 +311,227 @@ def explore_validate(ctx, rp, cfg, tag, runs):
             os.remove(trace)
             return
         os.remove(trace)
+
+
+# ------------------------------------------------------------------------------------------------------------
+# several mutex objects, holder slots, callback requests (MutexMulti.tla, harness/mutex_multi_replay.cpp)
+# ------------------------------------------------------------------------------------------------------------
+def MM(parties, mutexes=("m1", "m2"), slots="private", kinds=None, uses=None, probes=None, through=(), maxops=6):
+    """parties: {name: "plain"|"co"}; slots: "private" (one object per party and mutex), "party" (one object per party for
+    all mutexes), "holder" (one object per mutex shared by all parties), or an explicit {party: {mutex: slot id}}"""
+    ps = sorted(parties)
+    ms = list(mutexes)
+    if slots == "private":
+        so = {p: {m: "%s@%s" % (p, m) for m in ms} for p in ps}
+    elif slots == "party":
+        so = {p: {m: "s@%s" % p for m in ms} for p in ps}
+    elif slots == "holder":
+        so = {p: {m: "h@%s" % m for m in ms} for p in ps}
+    else:
+        so = slots
+    kinds = kinds or {}
+    uses = uses or {}
+    return {"P": dict(parties), "M": ms, "slot": so, "slots": slots if isinstance(slots, str) else "custom",
+            "kinds": {p: sorted(kinds.get(p, ["try", "lock"])) for p in ps},
+            "uses": {p: sorted(uses.get(p, ms)) for p in ps},
+            "probes": sorted(ms if probes is None else probes), "through": sorted(through), "maxops": maxops}
+
+
+def tla_fun(d, val):
+    return "(" + " @@ ".join('"%s" :> %s' % (k, val(v)) for k, v in sorted(d.items())) + ")"
+
+
+def multi_defs(cfg):
+    P = cfg["P"]
+    return {
+        "Mutexes": tla_set(cfg["M"]),
+        "PPlain": tla_set(sorted(p for p, k in P.items() if k == "plain")),
+        "PCo": tla_set(sorted(p for p, k in P.items() if k == "co")),
+        "PThrough": tla_set(cfg["through"]),
+        "Probes": tla_set(cfg["probes"]),
+        "MaxOps": str(cfg["maxops"]),
+        "DetachFirst": "TRUE",
+        "SlotOf": tla_fun(cfg["slot"], lambda row: tla_fun(row, lambda s: '"%s"' % s)),
+        "Kinds": tla_fun(cfg["kinds"], tla_set),
+        "Uses": tla_fun(cfg["uses"], tla_set),
+    }
+
+
+def _walk(head, nx, stop):
+    out = []
+    n = head
+    fuel = 12
+    while n not in stop and fuel:
+        fuel -= 1
+        out.append(n)
+        n = nx[n]
+    return out
+
+
+def proj_multi(st, cfg, level=0):
+    """level 0: everything; 1: without the owner-private FIFO; 2: public observations only"""
+    P = cfg["P"]
+    slot = st["slot"] if st["slot"] != [] else {}
+    out = {
+        "st": st["st"],
+        "co": {p: ("lock" if "wait" in st["st"][p].values() else "cmd") for p, k in P.items() if k == "co"},
+        "slot": {s: (v if level < 2 or v == "none" else "set") for s, v in slot.items()},
+        "got": [list(g) for g in st["got"]],
+        "res": st["res"],
+    }
+    if level < 2:
+        out["req"] = st["req"]
+        out["chain"] = {m: _walk(st["req"][m], st["nxt"][m], ("null", "door")) for m in cfg["M"]}
+    if level < 1:
+        out["queue"] = {m: _walk(st["queue"][m], st["nxt"][m], ("null", "door")) for m in cfg["M"]}
+    return out
+
+
+REL_PLAIN = ["discard", "reset", "dtor", "keep"]
+REL_CO = ["discard", "await", "reset", "dtor", "keep"]
+
+
+def header_multi(cfg, k, nvariants):
+    """every path is replayed nvariants times (graph_replay numbers the scenarios consecutively); a scenario fixes one
+    assignment of API forms to the parties: how a request is made (callback through await_suspend(fn, ctx) or a custom
+    awaiter through subscribe(); blocking: ownership(co_awaiter&&) or wait()), how an ownership is released, how the
+    bystander's probe lets go.  Variant 0 is the plain one (release() discarded, callbacks), the others rotate with the path."""
+    v, r = k % nvariants, k // nvariants
+    rel, form = {}, {}
+    for i, (p, kind) in enumerate(sorted(cfg["P"].items())):
+        # "twice": release() again on the released object (a no-op) - only where nobody else stores into that object
+        rels = (REL_CO if kind == "co" else REL_PLAIN) + (["twice"] if cfg["slots"] == "private" else [])
+        rel[p] = rels[(v + i + r) % len(rels)] if v else rels[0]
+        form[p] = ("cb", "sub")[(v + (i + r if v > 1 else 0)) % 2]
+    return {"M": cfg["M"], "P": cfg["P"], "slot": cfg["slot"], "through": cfg["through"],
+            "rel": rel, "form": form, "probe": ("dtor", "release")[v % 2]}
+
+
+def multi_desc(cfg):
+    return "%s mutexes=%d slots=%s through=%s ops=%d" % ("+".join("%s:%s" % (p, cfg["P"][p]) for p in sorted(cfg["P"])), len(cfg["M"]), cfg["slots"],
+                                                       cfg["through"], cfg["maxops"])
+
+
+def build_multi(ctx):
+    """-> (replayer, observation level).  A representation change of the mutex must degrade the projection, not break the
+    check: when the full harness does not compile, it is rebuilt without the probes of the private members it may have lost"""
+    return _build_levels(ctx, "harness/mutex_multi_replay.cpp", "mutex_multi_replay")
+
+
+LEVEL_NOTE = {1: "without the owner-private FIFO (mutex::_queue is not a member any more)",
+              2: "with public observations only (mutex::_requests / _queue or ownership::_ptr are not members any more)"}
+
+
+def _build_levels(ctx, src, name):
+    src = os.path.join(vlib.VERIF, src)
+    last = None
+    first = int(os.environ.get("VERIF_MUTEX_OBS", "0"))       # development aid: start at a reduced level on purpose
+    for level, defines in enumerate((None, ["MUTEX_NO_QUEUE"], ["MUTEX_NO_PRIVATE"])):
+        if level < first:
+            continue
+        try:
+            rp = vlib.compile_harness(src, name, sanitize=not ctx.quick, defines=defines)
+        except vlib.MachineryError as e:
+            last = e
+            continue
+        if level:
+            ctx.assume("%s built %s: the corresponding parts of the projection are not compared" % (name, LEVEL_NOTE[level]))
+        return rp, level
+    raise last
+
+
+def run_multi(ctx, rp, level, cfg, tag, max_paths=None, nvariants=3, workers=4):
+    must = ["Try", "Lock", "Release"]
+    if cfg["probes"]:
+        must.append("Probe")
+    if any("block" in k for k in cfg["kinds"].values()):
+        must.append("Block")
+    res, g = graph_replay(ctx, "Mutex", "MutexMulti", "MutexMulti_base.cfg", tag, rp, lambda st: proj_multi(st, cfg, level),
+                          header_fn=lambda k, st0: header_multi(cfg, k, nvariants), defs=multi_defs(cfg), must_take=must,
+                          variants=[{} for v in range(nvariants)],
+                          max_paths=max_paths, tlc_kw={"workers": workers})
+    return res
+
+
+# quick tier: C07 takes the first two, C08 the last two (each check also sees the other's seed family through its own pair)
+MULTI_QUICK = [
+    # two mutexes, private ownership objects, callback waiters behind both, a bystander probing: independence of the objects
+    MM({"a": "plain", "b": "plain", "c": "plain"}, kinds={"b": ["lock"], "c": ["lock"]}),
+    # one shared holder slot, a party that releases from inside its grant, a coroutine among callback parties
+    MM({"a": "plain", "b": "plain", "c": "co"}, slots="holder", through=["b"], mutexes=["m1"], maxops=7),
+    # two resources with a shared holder slot each: the next owner's callback assigns the slot the releaser is inside of
+    MM({"a": "plain", "b": "plain", "c": "plain"}, slots="holder", maxops=5),
+    # coroutines holding one mutex while requesting the other, ONE ownership object per party (acquiring over it releases)
+    MM({"a": "co", "b": "co", "c": "plain"}, slots="party", maxops=5),
+]
+MULTI_MORE = [
+    MM({"a": "plain", "b": "plain", "c": "plain"}, maxops=7),
+    MM({"a": "co", "b": "plain", "c": "co"}, kinds={"a": ["lock"], "b": ["try", "lock", "block"], "c": ["lock"]}, maxops=7),
+    MM({"a": "plain", "b": "plain", "c": "co", "d": "plain"}, slots="holder", through=["b"], maxops=6),
+    MM({"a": "co", "b": "co", "c": "plain"}, slots="party", through=[], maxops=7),
+    MM({"a": "co", "b": "plain", "c": "plain"}, slots="private", through=["a", "c"], kinds={"b": ["try", "lock", "block"]}, maxops=6),
+    MM({"a": "plain", "b": "co", "c": "plain"}, mutexes=["m1", "m2", "m3"], kinds={"a": ["lock"], "b": ["lock"], "c": ["try", "lock"]}, probes=["m3"], maxops=6),
+]
+
+
+def start_multi(ctx, cfgs, **kw):
+    """runs run_multi_all on a thread of its own (next to the finest-grain mixes); returns a function that waits for it and
+    re-raises what it raised"""
+    import threading
+    if os.environ.get("VERIF_SKIP_MULTI"):      # development aid: timing of the rest
+        return lambda: None
+    box = []
+
+    import time
+
+    def work():
+        t0 = time.time()
+        try:
+            run_multi_all(ctx, cfgs, **kw)
+        except BaseException as e:      # noqa: B902 -- handed to the caller
+            box.append(e)
+        ctx.extra["multi_wall_s"] = round(time.time() - t0, 1)
+    th = threading.Thread(target=work, daemon=True)
+    th.start()
+
+    def wait():
+        t0 = time.time()
+        th.join()
+        ctx.extra["multi_waited_s"] = round(time.time() - t0, 1)     # what the part adds to the wall time of the check
+        if box:
+            raise box[0]
+    return wait
+
+
+def multi_selftest(ctx):
+    """the invariants of MutexMulti.tla have teeth: a release() that unlocks through the still armed holder slot and disarms
+    it afterwards (DetachFirst = FALSE, not the code) must be rejected"""
+    cfg = MM({"a": "plain", "b": "plain", "c": "plain"}, slots="holder", mutexes=["m1"], maxops=4)
+    defs = multi_defs(cfg)
+    defs["DetachFirst"] = "FALSE"
+    res = ctx.tlc("Mutex", "MutexMulti", os.path.join(vlib.VERIF, "spec", "Mutex", "MutexMulti_base.cfg"), "mmself", defs=defs, workers=1, coverage=False)
+    if not res.violation:
+        raise vlib.MachineryError("self-test: MutexMulti.tla accepts a release() that disarms the holder slot after the unlock")
+    res.model["expected_violation"] = True
+
+
+def run_multi_all(ctx, cfgs, max_paths=None, nvariants=3, par=3):
+    from concurrent.futures import ThreadPoolExecutor
+    rp, level = build_multi(ctx)
+    multi_selftest(ctx)
+    errs = []
+
+    def one(k):
+        if len(ctx.violations) >= 3:
+            return
+        try:
+            run_multi(ctx, rp, level, cfgs[k], "mm%d" % k, max_paths=max_paths, nvariants=nvariants)
+        except Exception as e:
+            errs.append(e)
+    with ThreadPoolExecutor(max_workers=par) as ex:
+        list(ex.map(one, range(len(cfgs))))
+    if errs:
+        raise errs[0]
+    ctx.extra["multi_mixes"] = [multi_desc(c) for c in cfgs]
+    ctx.assume("several mutexes / holder slots / callback requests (MutexMulti.tla): sequential histories at the grain of one public "
+               "call, everything a call triggers has run when it returns; a single-threaded program blocks only on a free mutex")
